@@ -350,8 +350,10 @@ func runRef(c RefCase, class func(string)) (discs []refDisc, nontrivial bool) {
 	for k, tx := range c.Txs {
 		// ---- pre-state, read from the chain ----
 		pre := map[common.Address]refevm.Account{}
+		absent := map[common.Address]bool{} // no account record before this transaction
 		total := new(big.Int)
 		for _, a := range watched {
+			absent[a] = app.AccountKeeper.GetAccount(n.Ctx(), sdk.AccAddress(a.Bytes())) == nil
 			acc := refevm.Account{Balance: bal(a), Storage: map[common.Hash]common.Hash{}}
 			total.Add(total, acc.Balance)
 			if code := codeOf(a); len(code) > 0 {
@@ -434,6 +436,12 @@ func runRef(c RefCase, class func(string)) (discs []refDisc, nontrivial bool) {
 		flushKey := func(a common.Address, base, what string) string {
 			if hasPre && untouchedInRef(a) {
 				return "flush-then-revert:" + what + "-of-undirtied-account"
+			}
+			if hasPre && absent[a] {
+				// the other face of the same finding: an account first created inside a frame that flushed and then
+				// failed loses its state object in the revert; when it is touched again later in the transaction it is
+				// re-loaded from the store, i.e. with the flushed value
+				return "flush-then-revert:" + what + "-of-account-created-in-reverted-frame"
 			}
 			return base
 		}
